@@ -233,6 +233,9 @@ impl Check for C06 {
         out
     }
 
+    fn interference(&self) -> bool {
+        true
+    }
     fn required_probes(&self, _tier: Tier) -> Vec<&'static str> {
         let mut v: Vec<&'static str> = SIGP.to_vec();
         v.extend([
